@@ -195,90 +195,11 @@ func rulesC01(p *Prog, r *Report) {
 	r.Explanation = "Decides the bookkeeping shape behind 'vault custody, count and published totals match the open vaults' (not the sums themselves): (R01.1) on every success path of every unit that touches the vault counter, counter increments minus decrements equal vault creations minus deletions; (R01.2) in every vault message handler each movement of collateral into/out of vault custody and each mint/burn of debt is accompanied on the same path by the totals update of the matching direction and by the matching change of the vault record, and every booked amount is the very amount moved (expression identity with flow-sensitive resolution of locals); (R01.3) no handler uses a copy of a vault read before a call that may rewrite the vault (stale write-back / stale guard argument); (R01.4) the liquidation sweeps' per-vault units are proper all-or-nothing units (shared with C15)."
 	r.Assumptions = []string{"unsolicited transfers to the custody account are outside the property", "amount equality is decided by expression identity; a re-computation of the same value by different code would be reported", "SDK runTx atomicity"}
 
-	// R01.1 ------------------------------------------------------------------------
-	r.Rule("R01.1", "vault counter moves exactly with vault creation/deletion on every success path", 6)
-	setLen := p.MustFunc("x/vault/keeper.Keeper.SetLengthOfVault")
-	getLen := p.MustFunc("x/vault/keeper.Keeper.GetLengthOfVault")
+	vaultCounterBalanceRule(p, r, "R01.1")
 	setVault := p.MustFunc("x/vault/keeper.Keeper.SetVault")
-	setID := p.MustFunc("x/vault/keeper.Keeper.SetIDForVault")
-	delVault := p.MustFunc("x/vault/keeper.Keeper.DeleteVault")
-	_ = setVault
-	// classify a SetLengthOfVault call by its argument: length+1 / length-1
-	incOf := func(c ssa.CallInstruction) (int, bool) {
-		if p.callIsFn(c, setLen) {
-			args := callArgs(c)
-			if len(args) >= 2 {
-				if b, ok := args[1].(*ssa.BinOp); ok {
-					if k, isC := b.Y.(*ssa.Const); isC && k.Value != nil && k.Value.ExactString() == "1" {
-						fromGet := false
-						for _, o := range p.Origins(b.X) {
-							if o.Kind == "call" && p.callIsFn(o.Call, getLen) {
-								fromGet = true
-							}
-						}
-						if fromGet && b.Op.String() == "+" {
-							return 1, true
-						}
-						if fromGet && b.Op.String() == "-" {
-							return -1, true
-						}
-					}
-				}
-			}
-			return 3, true // unrecognised counter write: never balanced
-		}
-		if p.callIsFn(c, setID) {
-			return -1, true // a fresh vault id is consumed: one creation
-		}
-		if p.callIsFn(c, delVault) {
-			return 1, true // one deletion
-		}
-		return 0, false
-	}
 	touches := p.NewMay(func(c ssa.CallInstruction, callee *ssa.Function) bool {
-		return callee == setLen || callee == setID || callee == delVault
+		return callee == p.MustFunc("x/vault/keeper.Keeper.SetLengthOfVault") || callee == p.MustFunc("x/vault/keeper.Keeper.SetIDForVault") || callee == p.MustFunc("x/vault/keeper.Keeper.DeleteVault")
 	})
-	// roots: message handlers, hooks and work-unit closures that may touch the counter
-	type root struct {
-		fn   *ssa.Function
-		name string
-	}
-	var roots []root
-	unitClosure := map[*ssa.Function]bool{}
-	for _, u := range p.WorkUnits() {
-		if u.Closure != nil && touches.Fn(u.Closure) {
-			unitClosure[u.Closure] = true
-			roots = append(roots, root{u.Closure, "unit " + fname(u.Closure)})
-		}
-	}
-	for _, e := range p.MsgHandlers() {
-		if touches.Fn(e.Fn) {
-			roots = append(roots, root{e.Fn, "msg " + e.Name})
-		}
-	}
-	for _, e := range p.WasmHandlers() {
-		if touches.Fn(e.Fn) && !strings.HasSuffix(e.Name, ".DispatchMsg") {
-			roots = append(roots, root{e.Fn, "wasm " + e.Name})
-		}
-	}
-	sort.Slice(roots, func(i, j int) bool { return roots[i].name < roots[j].name })
-	for _, rt := range roots {
-		r.Instance("R01.1")
-		r.FuncsSeen[fname(rt.fn)] = true
-		memo := map[*ssa.Function]deltaSet{}
-		ds := p.vaultCountDeltas(rt.fn, incOf, memo, 0)
-		var vals []int
-		for k := range ds {
-			vals = append(vals, k)
-		}
-		sort.Ints(vals)
-		ok := len(vals) == 1 && vals[0] == 0
-		if ok {
-			r.OK("R01.1", rt.name, "counter delta equals creations minus deletions on every success path", p.pos(rt.fn.Pos()))
-		} else {
-			r.Fail("R01.1", rt.name, fmt.Sprintf("on some success path the vault counter moves differently from the number of vaults created/deleted (possible imbalances: %v; +n = counter too high)", vals), p.pos(rt.fn.Pos()), nil)
-		}
-	}
 
 	// R01.2 ------------------------------------------------------------------------
 	r.Rule("R01.2", "custody movement <=> totals update <=> vault record change, same amount (vault handlers)", 40)
@@ -843,4 +764,94 @@ func seizedLessReturned(p *Prog, fn *ssa.Function, x ssa.Value) string {
 		}
 	}
 	return fmt.Sprintf("the published collateral total is reduced by the seized collateral less %v, but this function credits no vault with that amount: collateral that leaves the product (returned to the owner's account) stays in the published total", keys)
+}
+
+// vaultCounterBalanceRule: the vault length counter (which also bounds the liquidation
+// sweeps' window) moves exactly with vault creation and deletion. Shared by C01 and C09.
+func vaultCounterBalanceRule(p *Prog, r *Report, rule string) {
+	// R01.1 ------------------------------------------------------------------------
+	r.Rule(rule, "vault counter moves exactly with vault creation/deletion on every success path", 6)
+	setLen := p.MustFunc("x/vault/keeper.Keeper.SetLengthOfVault")
+	getLen := p.MustFunc("x/vault/keeper.Keeper.GetLengthOfVault")
+	setVault := p.MustFunc("x/vault/keeper.Keeper.SetVault")
+	setID := p.MustFunc("x/vault/keeper.Keeper.SetIDForVault")
+	delVault := p.MustFunc("x/vault/keeper.Keeper.DeleteVault")
+	_ = setVault
+	// classify a SetLengthOfVault call by its argument: length+1 / length-1
+	incOf := func(c ssa.CallInstruction) (int, bool) {
+		if p.callIsFn(c, setLen) {
+			args := callArgs(c)
+			if len(args) >= 2 {
+				if b, ok := args[1].(*ssa.BinOp); ok {
+					if k, isC := b.Y.(*ssa.Const); isC && k.Value != nil && k.Value.ExactString() == "1" {
+						fromGet := false
+						for _, o := range p.Origins(b.X) {
+							if o.Kind == "call" && p.callIsFn(o.Call, getLen) {
+								fromGet = true
+							}
+						}
+						if fromGet && b.Op.String() == "+" {
+							return 1, true
+						}
+						if fromGet && b.Op.String() == "-" {
+							return -1, true
+						}
+					}
+				}
+			}
+			return 3, true // unrecognised counter write: never balanced
+		}
+		if p.callIsFn(c, setID) {
+			return -1, true // a fresh vault id is consumed: one creation
+		}
+		if p.callIsFn(c, delVault) {
+			return 1, true // one deletion
+		}
+		return 0, false
+	}
+	touches := p.NewMay(func(c ssa.CallInstruction, callee *ssa.Function) bool {
+		return callee == setLen || callee == setID || callee == delVault
+	})
+	// roots: message handlers, hooks and work-unit closures that may touch the counter
+	type root struct {
+		fn   *ssa.Function
+		name string
+	}
+	var roots []root
+	unitClosure := map[*ssa.Function]bool{}
+	for _, u := range p.WorkUnits() {
+		if u.Closure != nil && touches.Fn(u.Closure) {
+			unitClosure[u.Closure] = true
+			roots = append(roots, root{u.Closure, "unit " + fname(u.Closure)})
+		}
+	}
+	for _, e := range p.MsgHandlers() {
+		if touches.Fn(e.Fn) {
+			roots = append(roots, root{e.Fn, "msg " + e.Name})
+		}
+	}
+	for _, e := range p.WasmHandlers() {
+		if touches.Fn(e.Fn) && !strings.HasSuffix(e.Name, ".DispatchMsg") {
+			roots = append(roots, root{e.Fn, "wasm " + e.Name})
+		}
+	}
+	sort.Slice(roots, func(i, j int) bool { return roots[i].name < roots[j].name })
+	for _, rt := range roots {
+		r.Instance(rule)
+		r.FuncsSeen[fname(rt.fn)] = true
+		memo := map[*ssa.Function]deltaSet{}
+		ds := p.vaultCountDeltas(rt.fn, incOf, memo, 0)
+		var vals []int
+		for k := range ds {
+			vals = append(vals, k)
+		}
+		sort.Ints(vals)
+		ok := len(vals) == 1 && vals[0] == 0
+		if ok {
+			r.OK(rule, rt.name, "counter delta equals creations minus deletions on every success path", p.pos(rt.fn.Pos()))
+		} else {
+			r.Fail(rule, rt.name, fmt.Sprintf("on some success path the vault counter moves differently from the number of vaults created/deleted (possible imbalances: %v; +n = counter too high)", vals), p.pos(rt.fn.Pos()), nil)
+		}
+	}
+
 }
